@@ -133,11 +133,11 @@ func genFixtureHarness() (string, []string, []string) {
 }
 
 type xmlmReport struct {
-	Fixtures  int      `json:"fixtures"`
-	Compared  int      `json:"decodings_compared"`
-	Agree     int      `json:"agree"`
-	Disagree  []string `json:"disagree"`
-	Skipped   []string `json:"skipped"`
+	Fixtures int      `json:"fixtures"`
+	Compared int      `json:"decodings_compared"`
+	Agree    int      `json:"agree"`
+	Disagree []string `json:"disagree"`
+	Skipped  []string `json:"skipped"`
 }
 
 // runXMLMDiff: symbolic (concrete-mode) run of every generated fixture harness vs the native run.
